@@ -9,10 +9,10 @@ namespace TextIO
 theorem classify_kws :
     classifyHead kwModule 1 = .ok .module ∧ classifyHead kwEndmodule 0 = .ok .endmodule
     ∧ classifyHead kwProto 1 = .ok .proto ∧ classifyHead kwFunc 1 = .ok .func
-    ∧ classifyHead kwEndfunc 0 = .ok .endfunc ∧ classifyHead kwExport 0 = .ok .export
+    ∧ (∀ k, classifyHead kwEndfunc k = .ok .endfunc) ∧ classifyHead kwExport 0 = .ok .export
     ∧ classifyHead kwImport 0 = .ok .import ∧ classifyHead kwForward 0 = .ok .forward
     ∧ classifyHead kwLocal 0 = .ok .local ∧ classifyHead kwGlobal 0 = .ok .global := by
-  refine ⟨rfl, rfl, rfl, rfl, rfl, rfl, rfl, rfl, rfl, rfl⟩
+  refine ⟨rfl, rfl, rfl, rfl, fun _ => rfl, rfl, rfl, rfl, rfl, rfl⟩
 
 theorem classify_opt (k : Nat) (hk : k ≤ 1) :
     classifyHead kwBss k = .ok .bss ∧ classifyHead kwRef k = .ok .ref ∧ classifyHead kwLref k = .ok .lref
@@ -60,7 +60,7 @@ theorem parsesTo_type {h : Head} (hfp : h.isFuncProto = true) (t : Ty) : ParsesT
   rcases ht with ht | ht <;> subst ht <;>
     simp [parseOperand, hfp, hd, hlg, hnd, str2type_typeStr, parseDeclRest, Except.map]
 
-def pVar (v : Var) : Bool := !v.ty.isBlk || decide (v.size < 2 ^ 32)
+def pVar (v : Var) : Bool := !v.ty.isBlk || decide (v.size < 2 ^ 63)
 
 theorem toks_ltVar (v : Var) :
     toks (ltVar v) = if v.ty.isBlk then
@@ -82,7 +82,7 @@ theorem parsesTo_var {h : Head} (hfp : h.isFuncProto = true) {v : Var} (hv : pVa
   · simp only [pVar, hb, Bool.not_true, Bool.false_or, decide_eq_true_eq] at hv
     have h64 : v.size < 2 ^ 64 := by omega
     have hsz : (BitVec.ofNat 64 v.size).toNat = v.size := by simp [BitVec.toNat_ofNat]; omega
-    have hlt : ¬ (v.size ≥ 2 ^ 32) := by omega
+    have hlt : ¬ (v.size ≥ 2 ^ 63) := by omega
     simp [parseOperand, hfp, hd, hlg, hnd, str2type_typeStr, parseDeclRest, Except.map, hb, hsz, hlt]
 
 theorem parsesTo_local {v : Ty × Str} (hv : okVarType v.1 = true) :
@@ -105,7 +105,7 @@ def pFItem : FItem → Bool
 
 def pFunc (f : Func) : Bool :=
   f.args.all pVar && f.locals.all (fun v => okVarType v.1) && f.globals.all (fun v => okVarType v.1)
-  && f.body.all pFItem && noTrailingLabel f.body
+  && f.body.all pFItem
 
 def pItem : Item → Bool
   | .proto _ _ args _ => args.all pVar
@@ -183,74 +183,31 @@ theorem toks_ltDataEnd (ty : Ty) (els : List Nat) : toks (ltDataEnd ty els) = [.
 
 /-! ## function bodies -/
 
-/-- no label is left pending at the end of the body -/
-def okTail : List FItem → Bool → Bool
-  | [], pending => !pending
-  | .label _ :: r, _ => okTail r true
-  | .insn _ _ :: r, _ => okTail r false
-
-theorem okTail_of_noTrailing (body : List FItem) (h : noTrailingLabel body = true) : okTail body false = true := by
-  have gen : ∀ (b : List FItem) (p : Bool), okTail b p =
-      (match b.getLast? with
-       | some (.label _) => false
-       | some (.insn _ _) => true
-       | none => !p) := by
-    intro b
-    induction b with
-    | nil => intro p; simp [okTail]
-    | cons x xs ih =>
-      intro p
-      cases x with
-      | label l =>
-        simp only [okTail, ih]
-        cases xs with
-        | nil => simp
-        | cons y ys =>
-          rw [List.getLast?_cons_cons]
-          cases hgl : (y :: ys).getLast? with
-          | none => simp at hgl
-          | some z => cases z <;> simp
-      | insn c ops =>
-        simp only [okTail, ih]
-        cases xs with
-        | nil => simp
-        | cons y ys =>
-          rw [List.getLast?_cons_cons]
-          cases hgl : (y :: ys).getLast? with
-          | none => simp at hgl
-          | some z => cases z <;> simp
-  rw [gen]
-  unfold noTrailingLabel at h
-  cases hl : body.getLast? with
-  | none => simp
-  | some x =>
-    cases x with
-    | label l => simp [hl] at h
-    | insn c ops => simp
-
-theorem body_lines (body : List FItem) (pend : List Str) (hp : body.all pFItem = true)
-    (ht : okTail body (!pend.isEmpty) = true) :
-    StmtLines (stmtsOfBody body pend) (bodyLabelToks pend ++ toks (body.flatMap ltFItem)) := by
+/-- the instruction lines of a body followed by the `endfunc` line (which takes the labels that are
+still pending) -/
+theorem body_lines (body : List FItem) (pend : List Str) (hp : body.all pFItem = true) :
+    StmtLines (stmtsOfBody body pend ++ [⟨bodyPending body pend, .endfunc, [], false⟩])
+      (bodyLabelToks pend ++ toks (body.flatMap ltFItem) ++ [.name kwEndfunc, .nl]) := by
   induction body generalizing pend with
   | nil =>
-    simp only [okTail, Bool.not_not, List.isEmpty_iff] at ht
-    subst ht
-    simpa [stmtsOfBody, bodyLabelToks] using StmtLines.nil
+    have := line_of (labels := pend) (name := kwEndfunc) (h := .endfunc) (pieces := []) (rops := []) true
+      (classify_kws.2.2.2.2.1 pend.length) All2.nil (Or.inl rfl)
+    simpa [stmtsOfBody, bodyPending, commaToks] using this
   | cons x xs ih =>
     simp only [List.all_cons, Bool.and_eq_true] at hp
     cases x with
     | label l =>
-      have he : (!(pend ++ [printLabel l]).isEmpty) = true := by cases pend <;> simp
-      have := ih (pend ++ [printLabel l]) hp.2 (by rw [he]; simpa [okTail] using ht)
-      simpa [stmtsOfBody, bodyLabelToks, ltFItem, ltLabel, ltName, tColon, tNl, LT.toks] using this
+      have := ih (pend ++ [printLabel l]) hp.2
+      simpa [stmtsOfBody, bodyPending, bodyLabelToks, ltFItem, ltLabel, ltName, tColon, tNl, LT.toks] using this
     | insn c ops =>
       have hcode : codeOK c = true := by simpa [pFItem] using hp.1
       have hall : All2 (ParsesTo (.insn c)) (ops.map fun o => toks (ltOp o)) (ops.map ropOfOp) :=
         All2.map _ _ ops (fun o _ t rest ht => parseOperand_op (plain_heads.2.2.2.2.2.2.2.2 c) o ht rest)
       have hline := line_of (labels := pend) true (classify_insn hcode pend.length) hall (Or.inl rfl)
-      have hrest := ih [] hp.2 (by simpa [okTail] using ht)
+      have hrest := ih [] hp.2
       have := StmtLines.append hline hrest
-      simpa [stmtsOfBody, bodyLabelToks, ltFItem, ltName, tTab, tNl, LT.toks, toks_ltOps, List.append_assoc] using this
+      simpa [stmtsOfBody, bodyPending, bodyLabelToks, ltFItem, ltName, tTab, tNl, LT.toks, toks_ltOps, List.append_assoc]
+        using this
 
 /-! ## variable declaration lines -/
 
@@ -355,20 +312,21 @@ theorem emptyLine (kw : Str) (h : Head) (hc : classifyHead kw 0 = .ok h) :
 
 theorem func_lines {f : Func} (hp : pFunc f = true) : StmtLines (stmtsOfFunc f) (toks (ltFunc f)) := by
   simp only [pFunc, Bool.and_eq_true] at hp
-  obtain ⟨⟨⟨⟨ha, hl⟩, hg⟩, hb⟩, hn⟩ := hp
+  obtain ⟨⟨⟨ha, hl⟩, hg⟩, hb⟩ := hp
   have kc := classify_kws
   have hhead := protoLine f.name kwFunc .func rfl kc.2.2.2.1 f.res f.args f.vararg ha
   have hloc := varLines kwLocal .local kc.2.2.2.2.2.2.2.2.1 ltLocal (fun v => ROp.var v.1 v.2 none) f.locals
     (fun v hv => parsesTo_local (List.all_eq_true.mp hl v hv))
   have hglob := varLines kwGlobal .global kc.2.2.2.2.2.2.2.2.2 ltGlobal (fun v => ROp.var v.1 v.2.1 (some v.2.2)) f.globals
     (fun v hv => parsesTo_global (List.all_eq_true.mp hg v hv))
-  have hbody := body_lines f.body [] hb (by simpa using okTail_of_noTrailing f.body hn)
-  have hend := emptyLine kwEndfunc .endfunc kc.2.2.2.2.1
-  have hbody' : StmtLines (stmtsOfBody f.body []) (.nl :: .nl :: toks (f.body.flatMap ltFItem)) := by
-    have : bodyLabelToks [] ++ toks (f.body.flatMap ltFItem) = toks (f.body.flatMap ltFItem) := by simp [bodyLabelToks]
+  have hbody := body_lines f.body [] hb
+  have hbody' : StmtLines (stmtsOfBody f.body [] ++ [⟨bodyPending f.body [], .endfunc, [], false⟩])
+      (.nl :: .nl :: (toks (f.body.flatMap ltFItem) ++ [.name kwEndfunc, .nl])) := by
+    have : bodyLabelToks [] ++ toks (f.body.flatMap ltFItem) ++ [.name kwEndfunc, .nl]
+        = toks (f.body.flatMap ltFItem) ++ [.name kwEndfunc, .nl] := by simp [bodyLabelToks]
     rw [this] at hbody
     exact StmtLines.nl_cons (StmtLines.nl_cons hbody)
-  have := StmtLines.append (StmtLines.append (StmtLines.append (StmtLines.append hhead hloc) hglob) hbody') hend
+  have := StmtLines.append (StmtLines.append (StmtLines.append hhead hloc) hglob) hbody'
   simpa [stmtsOfFunc, ltFunc, ltName, tColon, tTab, tNl, LT.toks, List.append_assoc] using this
 
 /-! ## items, modules -/
